@@ -15,6 +15,16 @@ CLAIMS = {
         technique="Lean 4 refinement proof of a statement-by-statement SmartList model to an abstract list (all op sequences, all chunk sizes 2^k); macros regenerated from smart_list.h by a translator; differential correspondence model vs real header (bounded-exhaustive + random + production chunk size, ASan/UBSan)",
         text="Theorems C15_refines/links/size/slots/no_fault/address/delete_untouched hold for every create/delete/clear sequence across capacity growth and slot reuse; the model is tied to the source by regenerated macros and by exact line-by-line agreement of the model driver with the real SmartList on every explored sequence.",
         note=BASE_NOTE + "Modelled, not verified: that std::vector<T*>::push_back leaves chunks in place (checked by the harness through recorded addresses); deleteEntry on a non-live entry is outside the precondition."),
+    "C16": dict(
+        level="proof", design="DESIGN.md section 3, C16",
+        technique="Lean 4 + Mathlib real analysis (interval integrals, HasDerivAt) about kernel definitions regenerated from the C++ by symbolic execution (translator t_kernels); sampled differential validation of the translator against the real member functions",
+        text="For all rc>0: Lucy, Square, Linear are non-negative on [0,rc], vanish at rc, integrate (4 pi r^2 W) to one, self value = W(0); Lucy and Square weight = -W'(r)/r (HasDerivAt). The definitions the theorems speak about are regenerated from wf_*.h/.cpp on every run, so a changed prefactor/exponent/branch breaks a proof; the translator is validated against the compiled functions.",
+        note=BASE_NOTE + "Modelled, not verified: floating-point rounding of the kernel evaluation; M_PI = pi; r->abs() is the Euclidean norm. Linear::weight and Square::weight(NULL) throw (no gradient weight provided) - checked on the real code."),
+    "C11": dict(
+        level="proof", design="DESIGN.md section 3, C11",
+        technique="Lean 4 invariant proof over ALL schedules of an abstract process/file-system model (any number of processes, arbitrary stale files); naming flag and step order regenerated from function_compiler.cpp; correspondence by forcing interleavings of real processes through guarded scheduling points",
+        text="C11_isolation: for every schedule every process is bound to code from its own expressions, none fails, and when all are done the directory equals the initial one; C11_progress shows the hypotheses are satisfiable. Tied to the source by the generated naming flag/step order and by exact agreement of model and real processes on forced interleavings (incl. the race witnesses of the old naming).",
+        note=BASE_NOTE + "Modelled, not verified: atomicity of stat/open(O_TRUNC)/unlink and of gcc writing its output (OS contract); distinct pids of live processes; the two stat calls of the probe are one step in the real-process harness (the Lean model also has the finer two-step probe, C11_coarse_refines)."),
 }
 
 
